@@ -196,8 +196,12 @@ def gen_c19(rnd, sid, method):
             L.append("R tm %d 0 1 popen_close %d" % (t, i))
     # the child may end by itself at some point
     for q in range(1, 12):
-        if rnd.random() < 0.25:
+        c = rnd.random()
+        if c < 0.25:
             L.append("E %d child %d %d %d" % (q, 100 + rnd.randint(1, n), rnd.choice([0, 1]), rnd.choice([0, 9])))
+        elif c < 0.4:
+            # the child is stopped / continued: a status that is not a termination
+            L.append("E %d child %d %d %d" % (q, 100 + rnd.randint(1, n), rnd.choice([2, 3]), 19))
         elif rnd.random() < 0.15:
             L.append("E %d advance %d 0" % (q, rnd.choice([1, 4, 6])))
     extra = "pids=%s" % ",".join(str(100 + i) for i in range(1, n + 1))
